@@ -54,6 +54,32 @@ Section C02.
       = T * V * (dPdT K w sp T V * dPdT K w sp T V) / (9 * ei * ej * cv).
   Proof. intros. unfold freq, gam. rewrite gap_neg_eq_l by assumption. eapply gap_formula_l; eassumption. Qed.
 
+
+  (** with Coquelicot's operators: dP_ph/dT = d/dT ( - dF_th/dV ) *)
+  Lemma dPdT_is_mixed_derivative :
+    forall T V, 0 < T -> V <> 0 ->
+      Derive (fun t => - Derive (F_th K w sp t) V) T = dPdT K w sp T V.
+  Proof.
+    intros T V HT HV.
+    rewrite (Derive_ext_loc (fun t => - Derive (F_th K w sp t) V) (fun t => P_th K w sp t V)).
+    - apply is_derive_unique. eapply dPdT_closed_form_l; eassumption.
+    - assert (Hh : 0 < T / 2) by lra.
+      exists (mkposreal (T / 2) Hh). intros t Ht. unfold P_th. f_equal.
+      apply is_derive_unique. eapply F_th_derive; try eassumption.
+      unfold ball in Ht. cbn in Ht. unfold AbsRing_ball, abs, minus, plus, opp in Ht. cbn in Ht.
+      apply Rabs_def2 in Ht. lra.
+  Qed.
+
+  Theorem gap_formula_Derive :
+    forall ei ej V T cv, 0 < T -> V <> 0 -> ei <> 0 -> ej <> 0 -> cv <> 0 ->
+      let dPdT_ := Derive (fun t => - Derive (F_th K w sp t) V) T in
+      gap (OF:=ROps) K Q2_neg w na (freq V) (gam V) ei ej V T cv
+      = T * V * (dPdT_ * dPdT_) / (9 * ei * ej * cv).
+  Proof.
+    intros ei ej V T cv HT HV Hi Hj Hc d. unfold d. rewrite dPdT_is_mixed_derivative by assumption.
+    apply gap_closed_form; assumption.
+  Qed.
+
   Theorem gap_at_zero_T :
     forall Q2 fr ga ei ej V cv, gap (OF:=ROps) K Q2 w na fr ga ei ej V 0 cv = 0.
   Proof. intros. apply gap_at_zero_T_l. Qed.
@@ -71,5 +97,6 @@ End C02.
 Print Assumptions dPdT_closed_form.
 Print Assumptions gap_formula.
 Print Assumptions gap_closed_form.
+Print Assumptions gap_formula_Derive.
 Print Assumptions gap_at_zero_T.
 Print Assumptions gap_nonneg_diagonal.
